@@ -24,6 +24,14 @@
 (*              (LifecycleMon).                                              *)
 EXTENDS Integers, Sequences, FiniteSets, TLC
 
+\* types for Apalache (comments for TLC): a letter, the code-shaped session state, an observation, the phase tracker
+\* @typeAlias: letter = {m: Str, mt: Str, ip: Str, sp: Str, mk: Str};
+\* @typeAlias: lcst = {ip: Str, at: Int, idp: Bool};
+\* @typeAlias: lcobs = {reply: Str, code: Int, nlist: Int, h: Set(Str), ipv: Str, tag: Int};
+\* @typeAlias: lcmu = {acc: Bool, inited: Bool, modern: Bool, ipv: Str, tag: Int};
+\* @typeAlias: lcres = {o: $lcobs, st: $lcst};
+Lifecycle_typeAliases == TRUE
+
 \* ---------------------------------------------------------------- alphabet
 MInit     == "initialize"
 MInited   == "notifications/initialized"
@@ -124,6 +132,7 @@ ObjClass(mt, mk) ==
     [] mk = "idup"  -> mt           \* the last entry of every key decides
     [] OTHER        -> mt
 \* the members of params named `_meta` up to letter case, in wire order: <<"exact" | "variant", class of the value>>
+\* @type: $letter => Seq(<<Str, Str>>);
 Members(l) ==
   CASE l.mt = "none"     -> <<>>
     [] l.mk = "case"     -> << <<"variant", l.mt>> >>
@@ -131,27 +140,35 @@ Members(l) ==
     [] l.mk = "dup"      -> << <<"exact", Opposite(l.mt)>>, <<"exact", l.mt>> >>
     [] l.mk = "dupnull"  -> << <<"exact", l.mt>>, <<"exact", "null">> >>
     [] OTHER             -> << <<"exact", ObjClass(l.mt, l.mk)>> >>
-ExactMembers(l) == SelectSeq(Members(l), LAMBDA e : e[1] = "exact")
+\* @type: $letter => Seq(<<Str, Str>>);
+ExactMembers(l) == LET \* @type: <<Str, Str>> => Bool;
+                       IsExact(e) == e[1] = "exact"      \* (a named LAMBDA: Apalache needs its type)
+                   IN SelectSeq(Members(l), IsExact)
 \* THE reading: only exact members count, the last one decides, null / an object without the entries = nothing
+\* @type: $letter => Str;
 Carried(l) ==
   LET ex == ExactMembers(l) IN
   IF ex = <<>> THEN "none"
   ELSE LET c == ex[Len(ex)][2] IN IF c \in {"null", "empty"} THEN "none" ELSE c
+\* @type: $letter => Str;
 Mt(l) == Carried(l)
 
 \* Two WRONG readings, used only to show that no presentation is redundant (ASSUME below): matching names
 \* without regard to letter case and merging what matches (encoding/json's way), and letting the first
 \* occurrence decide.
+\* @type: $letter => Str;
 ReadIgnoringCase(l) ==
   CASE l.mt = "none" -> "none"
     [] l.mk \in {"case", "icase"} -> l.mt
     [] l.mk \in {"both", "iboth"} -> Opposite(l.mt)
     [] OTHER -> Carried(l)
+\* @type: $letter => Str;
 ReadFirstWins(l) ==
   CASE l.mt = "none" -> "none"
     [] l.mk \in {"dup", "idup"} -> Opposite(l.mt)
     [] l.mk = "dupnull" -> l.mt
     [] OTHER -> Carried(l)
+\* @type: Str => <<Bool, Bool, Bool>>;
 Verdict3(mt) == <<IsModernVer(mt), MetaComplete(mt), MetaSupported(mt)>>
 
 \* which (class, presentation) pairs are in the alphabet besides the ordinary one
@@ -161,6 +178,7 @@ FormCombos ==
   (BothClasses \X {"both", "dup"}) \cup
   ({"nocaps", "newer"} \X {"iboth"}) \cup ({"ok", "nocaps", "newer"} \X {"idup"})
 
+\* @type: (Str, Str, Str, Str, Str) => $letter;
 L(m, mt, ip, sp, mk) == [m |-> m, mt |-> mt, ip |-> ip, sp |-> sp, mk |-> mk]
 Letters ==
   {L(MInit, "none", p, "plain", "exact") : p \in InitParamClasses} \cup
@@ -212,11 +230,14 @@ CUnsupportedVer == -32022
 \* the message that set it) and whether InitializedParams is set
 St0 == [ip |-> "nil", at |-> 0, idp |-> FALSE]
 
+\* @type: (Str, Int, Int, Set(Str), $lcst) => $lcobs;
 Obs(reply, code, nlist, h, st) ==
   [reply |-> reply, code |-> code, nlist |-> nlist, h |-> h, ipv |-> st.ip, tag |-> st.at]
 \* an error returned by handle: a call gets an error reply, a notification gets nothing
+\* @type: ($letter, Int, Int, Set(Str), $lcst) => $lcres;
 Reject(l, code, nlist, h, st) ==
   [o |-> IF IsNotif(l.m) THEN Obs("none", 0, 0, h, st) ELSE Obs("error", code, nlist, h, st), st |-> st]
+\* @type: ($letter, Set(Str), $lcst) => $lcres;
 Serve(l, h, st) ==
   [o |-> IF IsNotif(l.m) THEN Obs("none", 0, 0, h, st) ELSE Obs("result", 0, 0, h, st), st |-> st]
 
@@ -233,6 +254,7 @@ FeatureHandler(m) ==
     [] OTHER -> {}
 
 \* handleReceive: checkRequest, unmarshalParams, receiving middleware, method handler
+\* @type: ($lcst, $letter, Int) => $lcres;
 Receive(st, l, n) ==
   IF l.m = MInit /\ l.ip = "missing" THEN Reject(l, CInvalidRequest, 0, {}, st)     \* checkRequest
   ELSE IF l.m = MInit /\ l.ip = "null" THEN Reject(l, 0, 0, {}, st)                \* initializeMethodInfo.unmarshalParams
@@ -249,6 +271,7 @@ Receive(st, l, n) ==
 \* ServerSession.handle for the n-th message of the session.  validateRequestMeta reads params._meta through
 \* extractRequestMeta, which uses the SDK's request decoder (exact member names, later occurrences over
 \* earlier ones): what it sees is Carried(l).
+\* @type: ($lcst, $letter, Int) => $lcres;
 Step(st, l, n) ==
   LET new == IsModernVer(Mt(l)) IN
   \* validateRequestMeta: clientInfo if present, then clientCapabilities
@@ -277,16 +300,22 @@ Step(st, l, n) ==
 \*   ipv/tag the InitializeParams snapshot after the previous message
 Mu0 == [acc |-> FALSE, inited |-> FALSE, modern |-> FALSE, ipv |-> "nil", tag |-> 0]
 
+\* @type: $lcobs => Bool;
 Served(o) == o.reply = "result" \/ o.h # {}
+\* @type: $lcobs => Bool;
 HandlerServed(o) == o.reply = "result" \/ (o.h \ {"mw"}) # {}
+\* @type: $letter => Bool;
 LegacyMsg(l) == ~IsModernVer(Mt(l))
 \* ms: the endpoint serves protocol 2026-07-28 at all (FALSE on a stateful streamable HTTP endpoint, whose
 \* transport refuses it): "names a supported version" is relative to the endpoint.  server/discover is the
 \* negotiation request itself: such an endpoint answers it with its own (legacy-only) version list instead
 \* of -32022, so for discover only the SDK-level support of the named version counts.
+\* @type: ($letter, Bool) => Bool;
 VerSupported(l, ms) == MetaSupported(Mt(l)) /\ (ms \/ l.m = MDiscover)
+\* @type: ($letter, Bool) => Bool;
 ModernGood(l, ms) == IsModernVer(Mt(l)) /\ MetaComplete(Mt(l)) /\ VerSupported(l, ms)
 
+\* @type: ($lcmu, $letter, $lcobs, Bool) => $lcmu;
 PStep(mu, l, o, ms) ==
   [acc    |-> mu.acc \/ (l.m = MInit /\ LegacyMsg(l) /\ o.reply = "result"),
    inited |-> mu.inited \/ (l.m = MInited /\ LegacyMsg(l) /\ mu.acc),
@@ -294,36 +323,49 @@ PStep(mu, l, o, ms) ==
    ipv    |-> o.ipv,
    tag    |-> o.tag]
 
-PhaseName(mu) == (IF mu.inited THEN "initialized" ELSE IF mu.acc THEN "initAccepted" ELSE "fresh")
-                 \o (IF mu.modern THEN "+modern" ELSE "")
+\* @type: $lcmu => Str;
+\* (spelled out: Apalache has no concatenation of strings; the same six names as
+\*  (IF mu.inited THEN "initialized" ELSE IF mu.acc THEN "initAccepted" ELSE "fresh") \o (IF mu.modern THEN "+modern" ELSE ""))
+PhaseName(mu) == IF mu.modern
+                 THEN (IF mu.inited THEN "initialized+modern" ELSE IF mu.acc THEN "initAccepted+modern" ELSE "fresh+modern")
+                 ELSE (IF mu.inited THEN "initialized" ELSE IF mu.acc THEN "initAccepted" ELSE "fresh")
 
+\* @type: ($lcmu, $lcobs) => Bool;
 StateUnchanged(mu, o) == o.ipv = mu.ipv /\ o.tag = mu.tag
+\* @type: $lcmu => Bool;
 LegacySession(mu) == ~mu.modern
 
 \* On a legacy-protocol session nothing other than initialize, initialized, ping and cancellation
 \* reaches server-side handlers until an initialize request has been accepted.
+\* @type: ($lcmu, $letter, $lcobs) => Bool;
 GateBeforeInit(mu, l, o) ==
   (LegacySession(mu) /\ ~mu.acc /\ LegacyMsg(l) /\ l.m \notin PreInitAllowed)
      => (~Served(o) /\ o.ipv = "nil")
 \* A second initialize is rejected without changing session state.
+\* @type: ($lcmu, $letter, $lcobs) => Bool;
 DuplicateInitRejected(mu, l, o) ==
   (mu.acc /\ l.m = MInit /\ LegacyMsg(l)) => (o.reply = "error" /\ StateUnchanged(mu, o))
 \* An initialized notification before initialize was accepted is rejected without changing state.
+\* @type: ($lcmu, $letter, $lcobs) => Bool;
 PrematureInitializedRejected(mu, l, o) ==
   (LegacySession(mu) /\ ~mu.acc /\ l.m = MInited /\ LegacyMsg(l))
      => ("inited" \notin o.h /\ o.reply # "result" /\ StateUnchanged(mu, o))
 \* A repeated initialized notification is rejected without changing state.
+\* @type: ($lcmu, $letter, $lcobs) => Bool;
 RepeatedInitializedRejected(mu, l, o) ==
   (mu.acc /\ mu.inited /\ l.m = MInited /\ LegacyMsg(l))
      => ("inited" \notin o.h /\ o.reply # "result" /\ StateUnchanged(mu, o))
 \* ... "without changing session state", seen from outside: whatever was rejected before, the first initialized
 \* notification after an accepted initialize is the one that takes effect (the InitializedHandler runs).
+\* @type: ($lcmu, $letter, $lcobs) => Bool;
 FirstInitializedTakesEffect(mu, l, o) ==
   (LegacySession(mu) /\ mu.acc /\ ~mu.inited /\ l.m = MInited /\ LegacyMsg(l)) => "inited" \in o.h
 \* ping is always served.
+\* @type: ($lcmu, $letter, $lcobs) => Bool;
 PingAlways(mu, l, o) == (LegacySession(mu) /\ l.m = MPing /\ LegacyMsg(l)) => o.reply = "result"
 \* Requests carrying 2026-07-28 metadata are served (without a handshake) only if the metadata is
 \* complete and names a supported version; otherwise -32602, or -32022 listing the supported versions.
+\* @type: ($lcmu, $letter, $lcobs, Bool) => Bool;
 ModernServedIffMetaComplete(mu, l, o, ms) ==
   (IsModernVer(Mt(l)) /\ ~ModernGood(l, ms)) =>
      /\ ~Served(o)
@@ -333,6 +375,7 @@ ModernServedIffMetaComplete(mu, l, o, ms) ==
            /\ \/ (o.code = CInvalidParams /\ ~MetaComplete(Mt(l)))
               \/ (o.code = CUnsupportedVer /\ o.nlist > 0 /\ ~VerSupported(l, ms)))
 \* Methods removed from 2026-07-28 are answered method-not-found.
+\* @type: ($lcmu, $letter, $lcobs, Bool) => Bool;
 RemovedMethodsNotFound(mu, l, o, ms) ==
   (ModernGood(l, ms) /\ l.m \in Removed) =>
      /\ ~HandlerServed(o)
@@ -342,6 +385,7 @@ RemovedMethodsNotFound(mu, l, o, ms) ==
 ClauseNames == {"GateBeforeInit", "DuplicateInitRejected", "PrematureInitializedRejected",
                 "RepeatedInitializedRejected", "FirstInitializedTakesEffect", "PingAlways", "ModernServedIffMetaComplete",
                 "RemovedMethodsNotFound"}
+\* @type: (Str, $lcmu, $letter, $lcobs, Bool) => Bool;
 ClauseHolds(c, mu, l, o, ms) ==
   CASE c = "GateBeforeInit" -> GateBeforeInit(mu, l, o)
     [] c = "DuplicateInitRejected" -> DuplicateInitRejected(mu, l, o)
@@ -351,9 +395,11 @@ ClauseHolds(c, mu, l, o, ms) ==
     [] c = "PingAlways" -> PingAlways(mu, l, o)
     [] c = "ModernServedIffMetaComplete" -> ModernServedIffMetaComplete(mu, l, o, ms)
     [] c = "RemovedMethodsNotFound" -> RemovedMethodsNotFound(mu, l, o, ms)
+\* @type: ($lcmu, $letter, $lcobs, Bool) => Set(Str);
 Failed(mu, l, o, ms) == {c \in ClauseNames : ~ClauseHolds(c, mu, l, o, ms)}
 
 \* premises (for vacuity witnesses): the clause says something about this step
+\* @type: (Str, $lcmu, $letter, Bool) => Bool;
 Premise(c, mu, l, ms) ==
   CASE c = "GateBeforeInit" -> LegacySession(mu) /\ ~mu.acc /\ LegacyMsg(l) /\ l.m \notin PreInitAllowed
     [] c = "DuplicateInitRejected" -> mu.acc /\ l.m = MInit /\ LegacyMsg(l)
@@ -366,6 +412,7 @@ Premise(c, mu, l, ms) ==
 
 \* Outside the first sentence of C06 (not judged, only counted): a session that has served a 2026-07-28
 \* request without any initialize, and then serves legacy traffic / accepts initialized.
+\* @type: ($lcmu, $letter, $lcobs) => Bool;
 OutsideLegacyScope(mu, l, o) ==
   /\ mu.modern /\ ~mu.acc /\ LegacyMsg(l)
   /\ \/ (l.m \notin PreInitAllowed /\ Served(o))
@@ -376,5 +423,6 @@ OutsideLegacyScope(mu, l, o) ==
 \* It is a lead of the model; it becomes a finding only when the real code reproduces it.
 \* (historical lead: logging/setLevel, resources/subscribe, resources/unsubscribe and roots/list_changed used to be
 \* served before initialize; repaired in /repo, see KNOWN_FINDINGS.txt - the model has no departure left)
+\* @type: ($lcmu, $letter) => Bool;
 UngatedLead(mu, l) == FALSE
 =============================================================================
